@@ -11,6 +11,7 @@ package linkedlog
 
 import (
 	"encoding/binary"
+	"encoding/json"
 	"fmt"
 	"os"
 	"path/filepath"
@@ -200,7 +201,26 @@ func TestVerif_C06LL(t *testing.T) {
 		}
 	}
 
+	if rp := vh.Replay(); rp != "" {
+		// replay: only the codec cases named in the replay file (none if it is a replay of a writer history)
+		var doc struct {
+			Failures []struct {
+				Replay vc6llCase `json:"replay"`
+			} `json:"failures"`
+		}
+		b, err := os.ReadFile(rp)
+		if err != nil || json.Unmarshal(b, &doc) != nil {
+			t.Fatalf("setup failed: cannot read replay %s", rp)
+		}
+		todo = nil
+		for _, f := range doc.Failures {
+			if len(f.Replay.Values) > 0 && f.Replay.Category != "" {
+				todo = append(todo, f.Replay)
+			}
+		}
+	}
 	dirSeq := 0
+	big16k := 0
 	for _, c := range todo {
 		dirSeq++
 		dir := filepath.Join(vh.OutDir(), fmt.Sprintf("ll-%d", dirSeq))
@@ -298,8 +318,15 @@ func TestVerif_C06LL(t *testing.T) {
 			}
 			// Coq case: the file the implementation wrote, the zstd table of the record, expectation, observation
 			file, err := os.ReadFile(filepath.Join(dir, "linked-log"))
-			if err != nil || len(file) > 40000 || uint64(len(file)) < off+uint64(sz) {
-				rep.Count("oracle-only (file too large for the Coq run)")
+			// records of the 16 KiB class are expensive for coqc to parse (about 0.1 ms per byte literal):
+			// quick sends one of them (total length 16385) to the Coq run, thorough eight; all go through the oracle
+			limit := 3000
+			if len(file) > limit && big16k < 8 && (vh.Thorough() || (c.Category == "directed-16385" && big16k == 0)) {
+				limit = 40000
+				big16k++
+			}
+			if err != nil || len(file) > limit || uint64(len(file)) < off+uint64(sz) {
+				rep.Count("oracle-only (file too large for the Coq run of this tier)")
 				return
 			}
 			rec := file[off : off+uint64(sz)]
@@ -314,8 +341,9 @@ func TestVerif_C06LL(t *testing.T) {
 				rep.Fail("malformed-record", what+": payload does not decompress: "+err.Error(), c)
 				return
 			}
-			cases.Add(fmt.Sprintf("(%s, %d, %d, [(%s,%s)], (%s,(%d,%d)), %s)%%N",
-				vh.CoqBytes(file), off, sz, vh.CoqBytes(z), vh.CoqBytes(raw),
+			// the compressed bytes are a slice of the file: only (position, length) and the decompressed payload are written
+			cases.Add(fmt.Sprintf("(%s, %d, %d, [(%d,%d,%s)], (%s,(%d,%d)), %s)%%N",
+				vh.CoqBytes(file), off, sz, off+uint64(n), len(z), vh.CoqBytes(raw),
 				vc6llCoqEnts(c.Values, true), c.Prev[0], c.Prev[1], obs))
 		}()
 	}
